@@ -1,0 +1,39 @@
+//go:build verif
+
+// Package state: machine-checked contracts (comment-only; read by /verif/govc).
+package state
+
+//@ pred bitAt(bm uint64, k uint32) = k < 64 && (bm >> k) & 1 == 1
+
+//@ type SequenceHandler
+//@   ghost seen map[uint32]bool
+//@   invariant P: forall s uint32 :: self.seen[s] ==> (s <= self.highest && (s == self.highest || self.highest - s > 64 || bitAt(self.bitMap, self.highest - s - 1)))
+//@   invariant Q: forall s uint32 :: (s != 0 && s < self.highest && self.highest - s <= 64 && bitAt(self.bitMap, self.highest - s - 1)) ==> self.seen[s]
+//@   invariant R: self.highest != 0 ==> self.seen[self.highest]
+
+//@ func SequenceHandler.Check
+//@   modifies sh.bitMap, sh.highest, sh.lock
+//@   update when result == nil: sh.seen[seqNum] = true
+//@   ensures once [C03]: result == nil ==> !old(sh.seen[seqNum])
+//@   ensures record [C03]: result == nil ==> sh.seen[seqNum]
+//@   ensures others [C03]: forall s uint32 :: s != seqNum ==> sh.seen[s] == old(sh.seen[s])
+//@   ensures reject [C03]: result != nil ==> sh.highest == old(sh.highest) && sh.bitMap == old(sh.bitMap) && sh.seen[seqNum] == old(sh.seen[seqNum])
+//@   ensures window [C03]: (!old(sh.seen[seqNum]) && seqNum != 0 && (seqNum > old(sh.highest) || old(sh.highest) - seqNum <= 64)) ==> result == nil
+
+//@ func SequenceHandler.Reset
+//@   modifies sh.highest, sh.outSeq.v, sh.lock
+//@   update when true: reset sh.seen
+//@   ensures zero: sh.highest == 0 && sh.outSeq.v == 0
+
+//@ func SequenceHandler.RolloverRequired
+//@   modifies sh.highest, sh.lock
+//@   update when result: reset sh.seen
+//@   ensures cond [C15]: result == (old(sh.highest) >= 0xFFFFFF00 && seqNum <= 255)
+//@   ensures keep [C15]: !result ==> sh.highest == old(sh.highest)
+//@   ensures restart [C15]: result ==> sh.highest == 0
+
+//@ func TimeSequenceHandler.Check
+//@   modifies sh.latest, sh.lock
+//@   ensures accept-newer [C03]: result == nil ==> old(sh.latest) < seqTime && sh.latest == seqTime
+//@   ensures reject-keeps [C03]: result != nil ==> sh.latest == old(sh.latest)
+//@   ensures newer-accepted [C03]: old(sh.latest) < seqTime ==> result == nil
